@@ -147,6 +147,13 @@ func (x *Exec) heapGet(h *HeapState, name, sort string) string {
 	if t, ok := h.m[name]; ok {
 		return t
 	}
+	if strings.HasPrefix(name, "$called:") {
+		// ghost flag never set on this path: no such call has happened (whatever was havocked
+		// in between: the flags are the generator's, not the program's)
+		h.sorts[name] = sort
+		h.m[name] = "false"
+		return "false"
+	}
 	h.sorts[name] = sort
 	c := x.em.Const(fmt.Sprintf("%s@%d", name, h.epoch), sort)
 	h.m[name] = c
